@@ -40,7 +40,7 @@ def compositions(j):
 def cases(tier, seed):
     out = []
     Tmax = 6 if tier == "quick" else 8
-    nscn = 16 if tier == "quick" else 60
+    nscn = 16 if tier == "quick" else 240
     for i in range(nscn):
         rng = scenario.rng_for(seed, "C11a", i)
         scn = scenario.gen_scenario(rng, refine=False, max_iters=10)
@@ -51,7 +51,7 @@ def cases(tier, seed):
             scn["iters"] = Tmax
             scn["eps"] = float(rng.choice([0.6, 0.4, 0.3]))
         out.append({"kind": "allcomp", "scn": scn, "i": i, "Tmax": Tmax})
-    nr = 90 if tier == "quick" else 2500
+    nr = 90 if tier == "quick" else 10000
     for i in range(nr):
         rng = scenario.rng_for(seed, "C11b", i)
         scn = scenario.gen_scenario(rng, refine=bool(rng.random() < 0.15), max_iters=300 if tier == "quick" else 1500)
